@@ -594,6 +594,37 @@ Proof.
   - unfold setpc, upd_actor. cbn [acts]. rewrite nth_error_set_nth_same by exact Hl. eexists. split; [reflexivity|]. reflexivity.
 Qed.
 
+(* the section of a Wait call only evaluates the predicate: the guarded value is unchanged *)
+Lemma sect_wait_keeps_g s a x pk kk sl :
+  nth_error (acts s) a = Some x -> ak x = KWait pk kk sl -> sg (step s (Sect a)) = sg s.
+Proof.
+  intros Hx Hk. cbn [step]. destruct (sheld s); [reflexivity|]. unfold do_sect. rewrite Hx.
+  destruct (apc x); try reflexivity. rewrite Hk.
+  destruct (evalp pk kk (sg s)); try reflexivity. destruct (getch (sb s)). reflexivity.
+Qed.
+
+(* along runs: when the section of a Wait call parked at its gate runs and the predicate returns an error (true), the
+   call has returned that error (nil) right after this very step - cancelled context or not - and the value is unchanged *)
+Lemma wait_section_error_at_once es a x pk kk sl e :
+  nth_error (acts (run es)) a = Some x -> ak x = KWait pk kk sl -> apc x = PGate -> sheld (run es) = false ->
+  evalp pk kk (sg (run es)) = PErr e ->
+  exists x', nth_error (acts (run (es ++ [Sect a]))) a = Some x' /\ apc x' = PRet (10 + e) /\ sg (run (es ++ [Sect a])) = sg (run es).
+Proof.
+  intros Hx Hk Hp Hh Hev. rewrite run_snoc.
+  destruct (wait_section_result _ _ _ _ _ _ Hx Hk Hp Hh) as (x' & Hx' & Hres). rewrite Hev in Hres.
+  exists x'. split; [exact Hx'|]. split; [exact Hres | eapply sect_wait_keeps_g; eauto].
+Qed.
+
+Lemma wait_section_true_at_once es a x pk kk sl :
+  nth_error (acts (run es)) a = Some x -> ak x = KWait pk kk sl -> apc x = PGate -> sheld (run es) = false ->
+  evalp pk kk (sg (run es)) = PTrue ->
+  exists x', nth_error (acts (run (es ++ [Sect a]))) a = Some x' /\ apc x' = PRet 3 /\ sg (run (es ++ [Sect a])) = sg (run es).
+Proof.
+  intros Hx Hk Hp Hh Hev. rewrite run_snoc.
+  destruct (wait_section_result _ _ _ _ _ _ Hx Hk Hp Hh) as (x' & Hx' & Hres). rewrite Hev in Hres.
+  exists x'. split; [exact Hx'|]. split; [exact Hres | eapply sect_wait_keeps_g; eauto].
+Qed.
+
 (* Canceled only if cancelled: the flag, and where the flag comes from *)
 Lemma wait_canceled_flag es a x pk kk sl :
   nth_error (acts (run es)) a = Some x -> ak x = KWait pk kk sl -> apc x = PRet 4 -> acanc x = true.
@@ -1385,6 +1416,35 @@ Proof.
     apply N.eqb_eq in E2. apply code_blocked in E2. rewrite Hrun in *.
     destruct E2 as [E2|E2]; [|exfalso; eapply wait_no_ret2; eauto].
     rewrite (settled_blocked_pred_false _ _ _ _ _ _ Hset' Edirty Gx Ek E2). reflexivity. }
+  assert (HEV : forall j r, mon_eval (mon_mas1 m e) e (sg s') = Some (j, r) ->
+            exists x', nth_error (acts s') j = Some x' /\
+              match r with PTrue => apc x' = PRet 3 | PErr e1 => apc x' = PRet (10 + e1) | PFalse => True end).
+  { intros j r Hev.
+    destruct Hd as [mode hold block ops h bl Hh Hb Hmode|pk k pre slow p sl Hp Hsl Hpk|i x G Hp Hh|i x pk k sl G Hk Hpk|i x G Hp|i x G Hp];
+      cbn [mon_eval mon_mas1] in Hev; try discriminate Hev.
+    destruct (nth_error (mas m) (N.to_nat i)) as [mx|] eqn:Gm; [|discriminate Hev].
+    destruct (m_wait mx) as [[pk k]|] eqn:Ew; [|discriminate Hev].
+    destruct (N.eqb (mlast mx) 1); [|discriminate Hev]. inversion Hev; subst j r. clear Hev.
+    destruct (Hrel _ mx x Gm G) as ((B1 & _) & _).
+    destruct (m_wait_ak _ _ _ _ B1 Ew) as (sl & Ek & _).
+    destruct (wait_section_result s _ x pk k sl G Ek Hp Hh) as (x1 & Hx1 & Hres).
+    rewrite Eg, (sect_wait_keeps_g s _ x pk k sl G Ek).
+    assert (Hx' : exists x', nth_error (acts s') (N.to_nat i) = Some x').
+    { apply (core_eq_lookup (step s (Sect (N.to_nat i))) s'); [exact (conj Eb (conj Eg (conj Ed (conj En (conj El Elen))))) | eauto]. }
+    destruct Hx' as (x' & Hx'). exists x'. split; [exact Hx'|].
+    destruct (HM _ _ Hx') as (x1' & Hx1' & (_ & _ & _ & Hmv)).
+    assert (x1' = x1) by congruence. subst x1'.
+    destruct (evalp pk k (sg s)) as [| |e1]; [|exact I|]; (destruct Hmv as [->|(Hbk & _)]; [exact Hres | congruence]). }
+  assert (C8 : bad8 (mon_eval (mon_mas1 m e) e (sg s')) sts = false).
+  { destruct (mon_eval (mon_mas1 m e) e (sg s')) as [[j r]|] eqn:Eev; [|reflexivity].
+    destruct (HEV j r eq_refl) as (x' & Hx' & Hres). cbn [bad8].
+    destruct r as [| |e1]; try reflexivity.
+    unfold sts. rewrite nth_error_map, Hx'. cbn [option_map]. rewrite Hres. cbn [code_pc]. now rewrite N.eqb_refl. }
+  assert (C9 : bad9 (mon_eval (mon_mas1 m e) e (sg s')) sts = false).
+  { destruct (mon_eval (mon_mas1 m e) e (sg s')) as [[j r]|] eqn:Eev; [|reflexivity].
+    destruct (HEV j r eq_refl) as (x' & Hx' & Hres). cbn [bad9].
+    destruct r as [| |e1]; try reflexivity.
+    unfold sts. rewrite nth_error_map, Hx'. cbn [option_map]. rewrite Hres. reflexivity. }
   destruct (bad57_false (sb s') (slog s')) as (C5 & C7).
   assert (C6 : existsb bad6 (combine (mflags m) (nflags (sb s') (slog s'))) = false).
   { rewrite Emfl, El, Eex. apply bad6_false. exact Emono. }
@@ -1393,7 +1453,7 @@ Proof.
   { unfold sts. rewrite Eops, Emd, Emexp, Ecore, Ed, Eb, El. reflexivity. }
   unfold mon. rewrite Ho. unfold obs. cbv beta iota zeta.
   rewrite Nnat.Nat2N.id. rewrite firstn_map_app, skipn_map_app. fold sts. fold (nflags (sb s') (slog s')).
-  rewrite Ede. cbn [fst snd]. rewrite C1, C2, C3, C4, C5, C6, C7. cbn [app].
+  rewrite Ede. cbn [fst snd]. rewrite C1, C2, C3, C4, C5, C6, C7, C8, C9. cbn [app].
   eexists. split; [reflexivity|]. split; [|split; [eauto | exact Hset']].
   split; [|split; [|split; [reflexivity | split; reflexivity]]]; cbn [mas].
   - rewrite map_length, combine_length, L1. unfold sts. rewrite map_length, Elen. apply Nat.min_id.
